@@ -19,14 +19,14 @@ import (
 
 // Keyer computes keys for the values of one function.
 type Keyer struct {
-	P       *Prog
-	Fn      *ssa.Function
-	memo    map[ssa.Value]string
-	visit   map[ssa.Value]bool
-	ids     map[ssa.Instruction]string
-	spill   map[*ssa.Alloc]ssa.Value // allocs that only hold a spilled value
+	P        *Prog
+	Fn       *ssa.Function
+	memo     map[ssa.Value]string
+	visit    map[ssa.Value]bool
+	ids      map[ssa.Instruction]string
+	spill    map[*ssa.Alloc]ssa.Value // allocs that only hold a spilled value
 	captured map[*ssa.Alloc]bool
-	Opaque  map[*ssa.Function]bool // callees never inlined (rules refer to them by name)
+	Opaque   map[*ssa.Function]bool // callees never inlined (rules refer to them by name)
 	// NormGetters keys calls of generated protobuf getters like loads of the field they return.
 	NormGetters bool
 }
